@@ -1,11 +1,14 @@
 (* C12 — Reported positions are true positions in the input.
    Spec: Spec/Positions.v (pos_at: line = 1 + breaks before the index, CR LF counted once; col = characters since
-   the last break; marker_ok).  The scanner-side invariant "mark = pos_at consumed" is monitored on every run
-   (extracted marker_ok applied to every marker the implementation reports); what is a theorem today is the
-   characterisation of the recount itself, which makes the oracle trustworthy. *)
+   the last break; marker_ok).  Three theorems: the characterisation of the recount itself (which makes the oracle
+   trustworthy), and - for EVERY NUL-free input and every fuel - every token span of the scanner model and every
+   event span and error marker of the whole model pipeline is made of true positions (joint proof ScanPos*.v: the
+   invariant "the mark is the recount of the characters consumed" carried through every scanner function, true
+   marks carried through the token queue, the simple-key table and every parser state).
+   The extracted marker_ok is applied to every marker the implementation reports on every run. *)
 From Coq Require Import List NArith Bool.
 Import ListNotations.
-Require Import Positions PosProofs.
+Require Import Parser SBase SFetch Pipe Positions PosProofs ScanPos ScanPosTop.
 Open Scope N_scope.
 
 (* In a CR-free input made of complete lines [ls] followed by a partial line [cur], the j-th character of [cur]
@@ -19,4 +22,28 @@ Print Assumptions C12_recount_is_line_and_column.
 
 Example C12_example : pos_at [97; 10; 98; 99; 13; 10; 100] 6 = (3, 0) /\ marker_ok [97; 10; 98] 2 2 0 = true
                       /\ marker_ok [97; 10; 98] 2 2 1 = false.
+Proof. vm_compute. repeat split. Qed.
+
+(* Every span of every token the scanner produces, and the marker of the error it may end with, are true positions
+   of the input (index within the input; line and column equal to the recount) - any NUL-free input, any fuel. *)
+Theorem C12_scanner_positions_true : forall orig, Forall (fun c => c <> 0%N) orig -> forall F fuel,
+  let '(toks, se) := scan_all str_ops F fuel (init_sc {| si_chars := orig; si_look := 0 |}) [] in
+  Forall (true_tok orig) toks /\ (forall site m, se = SError site m -> true_mark orig m).
+Proof. exact scanner_positions_true. Qed.
+Print Assumptions C12_scanner_positions_true.
+
+(* The same for the whole pipeline: every event span, the scan error and the parse error.  (site 0 is the
+   placeholder the model uses for "unexpected end of tokens", which carries no position.) *)
+Theorem C12_pipeline_positions_true : forall orig, Forall (fun c => c <> 0%N) orig ->
+  let '(evs, r) := run_str orig in
+  Forall (fun es => true_span orig (snd es)) evs
+  /\ (forall site m, r = PScanErr site m -> site <> 0%N -> true_mark orig m)
+  /\ (forall site m, r = PParseErr site m -> true_mark orig m).
+Proof. exact pipeline_positions_true. Qed.
+Print Assumptions C12_pipeline_positions_true.
+
+(* non-vacuity: a NUL-free input with breaks of all three kinds, tokens on several lines *)
+Example C12_pipeline_example :
+  let orig := [97; 58; 10; 32; 32; 45; 32; 98; 13; 10; 32; 32; 45; 32; 99; 13; 100; 58; 32; 101] in
+  forallb (fun c => negb (c =? 0)) orig = true /\ snd (run_str orig) = PDone /\ length (fst (run_str orig)) = 13%nat.
 Proof. vm_compute. repeat split. Qed.
